@@ -249,7 +249,7 @@ theorem opSteps_noOps (cfg : Config) (block : SignedBlock) (p : Nat) (hno : NoOp
     obtain ⟨hv, hs, hm, hf⟩ := processHeader_frame st st' block p h
     exact hkeep ctx st st' hi hv hs hf (by rw [hm]) (seed_of_mixes cfg st st' _ _ hm)
   · intro ctx payload hpl; rw [hno.payload] at hpl; cases hpl
-  · intro ctx payload hpl; rw [hno.payload] at hpl; cases hpl
+  · intro _ ctx payload hpl; rw [hno.payload] at hpl; cases hpl
   · intro ctx _ st _ _ hi
     refine ⟨sim_randao cfg ctx st block p hi.prop hi.ctxp hi.plt hi.mixes hpos, fun st' h => ⟨?_, fun hf => by cases hf⟩⟩
     obtain ⟨hv, hs, hf, x, hm⟩ := processRandao_frame cfg ctx st st' block h
